@@ -1,18 +1,13 @@
-// C13 — tlx::RadixHeap, key types int8_t / uint8_t x radix {2,4,8,16,64} (see c13_radix_heap.hpp for the driver/oracles).
+// C13 — tlx::RadixHeap with int8_t keys x radix {2,4,8,16,64} (driver and oracles: c13_radix_heap.hpp).
+// Quick tier: none of this TU.
 #include "c13_radix_heap.hpp"
 
 namespace c13 {
-void register_radix_a(std::vector<Config>& out, bool thorough) {
-    // quick tier: one key type of this TU x radix {2,8,64}
-    add_radix<int8_t, 2>(out, thorough, false, 10);
-    add_radix<int8_t, 4>(out, thorough, false, 10);
-    add_radix<int8_t, 8>(out, thorough, false, 10);
-    add_radix<int8_t, 16>(out, thorough, false, 10);
-    add_radix<int8_t, 64>(out, thorough, false, 10 * 1.5);
-    add_radix<uint8_t, 2>(out, thorough, true, 10);
-    add_radix<uint8_t, 4>(out, thorough, false, 10);
-    add_radix<uint8_t, 8>(out, thorough, true, 10);
-    add_radix<uint8_t, 16>(out, thorough, false, 10);
-    add_radix<uint8_t, 64>(out, thorough, true, 10 * 1.5);
+void register_radix_1(std::vector<Config>& out, bool thorough) {
+    add_radix<int8_t, 2>(out, thorough, false);
+    add_radix<int8_t, 4>(out, thorough, false);
+    add_radix<int8_t, 8>(out, thorough, false);
+    add_radix<int8_t, 16>(out, thorough, false);
+    add_radix<int8_t, 64>(out, thorough, false);
 }
 }  // namespace c13
